@@ -8,8 +8,8 @@ import (
 	"unsafe"
 
 	"github.com/golang/protobuf/proto"
+	"github.com/openacid/slim/index"
 	"github.com/openacid/slim/trie"
-	"github.com/openacid/slim/xsimrt"
 )
 
 // C20 — build and load neither modify nor alias caller-owned memory.
@@ -38,7 +38,7 @@ func genC20(r *Rng, tier string) *C20Scn {
 	c.Pattern = r.PickS("zero", "ff", "random", "stream", "invert")
 	c.Chunk = r.PickI(0, 0, 1, 7, 64, 1024)
 	c.Delay = r.PickI(0, 0, 1, 2, 5, 20)
-	c.Entry = r.PickS("direct", "direct", "proto")
+	c.Entry = r.PickS("direct", "index", "proto")
 	c.Reloaded = r.Chance(0.2)
 	lim := GenLimits{MaxKeys: 300}
 	if r.Chance(0.15) {
@@ -374,7 +374,7 @@ func executeC20(scn *Scenario) *RunResult {
 		if quarter < 16 {
 			quarter = 16
 		}
-		xsimrt.Hook = func(site int) {
+		setHook(func(site int) {
 			n++
 			liveTicks++
 			yieldsInside++
@@ -392,9 +392,9 @@ func executeC20(scn *Scenario) *RunResult {
 					fail("caller-memory-modified-during-call", what, fmt.Sprintf("%s on %s: at yield %d (%s) inside the call: %s", what, c.id(), n, siteName(site), bad), "", "", n)
 				}
 			}
-		}
+		})
 		defer func() {
-			xsimrt.Hook = nil
+			setHook(nil)
 			if r := recover(); r != nil {
 				if _, ok := r.(abortUnit); ok {
 					return
@@ -464,6 +464,59 @@ func executeC20(scn *Scenario) *RunResult {
 				if b, _ := safeMarshal(st); viol == nil && !bytes.Equal(b, refBytes) {
 					fail("answers-changed-after-build-input-overwritten", "Marshal", fmt.Sprintf("build %s: after the caller overwrote what it had passed to NewSlimTrie (%s), Marshal() differs from the twin's", c.id(), c.Pattern), digest(refBytes), digest(b), 0)
 				}
+			}
+		}
+		// the same promise for the other builder of the library,
+		// index.NewSlimIndex: the caller's item slice (and the spare capacity
+		// behind it) is read, never reordered or written - also when the items
+		// are rejected (out of order, duplicate key)
+		if viol == nil && scn.RunSeed%3 == 0 && len(c.Spec.Keys) <= 5000 {
+			n := len(c.Spec.Keys)
+			store := make([]index.OffsetIndexItem, n, n+3)
+			for i, k := range c.Spec.Keys {
+				store[i] = index.OffsetIndexItem{Key: string(k), Offset: int64(i)*7 + 1}
+			}
+			variant := "sorted"
+			vr := NewRng(scn.RunSeed ^ 0x1d7)
+			if n >= 2 {
+				switch vr.Intn(4) {
+				case 1:
+					i := vr.Intn(n - 1)
+					store[i], store[i+1] = store[i+1], store[i]
+					variant = "two-neighbours-swapped"
+				case 2:
+					store[vr.Intn(n-1)+1].Key = store[0].Key
+					variant = "duplicate-key"
+				case 3:
+					for i := n - 1; i > 0; i-- {
+						j := vr.Intn(i + 1)
+						store[i], store[j] = store[j], store[i]
+					}
+					variant = "shuffled"
+				}
+			}
+			for i := n; i < n+3; i++ {
+				store[:n+3][i] = index.OffsetIndexItem{Key: "\xfe-beyond-len", Offset: -int64(i) - 99}
+			}
+			snap := append([]index.OffsetIndexItem{}, store[:n+3]...)
+			chk := func() string {
+				for i, it := range store[:n+3] {
+					if it != snap[i] {
+						where := "item"
+						if i >= n {
+							where = "spare capacity behind the item slice, element"
+						}
+						return fmt.Sprintf("%s %d of the caller's []OffsetIndexItem (%s input, %d items) was {%q %d}, is {%q %d}", where, i, variant, n, clip(snap[i].Key, 40), snap[i].Offset, clip(it.Key, 40), it.Offset)
+					}
+				}
+				return ""
+			}
+			monitored("NewSlimIndex", int64(n+3)*24, chk, func() {
+				_, _ = index.NewSlimIndex(store[:n], nil)
+			})
+			res.Counters["index_builds."+variant]++
+			if bad := chk(); bad != "" {
+				fail("caller-memory-modified", "NewSlimIndex", fmt.Sprintf("after index.NewSlimIndex on %s: %s", c.id(), bad), "", "", 0)
 			}
 		}
 		res.Steps = yieldsInside
